@@ -58,27 +58,23 @@ func init() {
 			c.und("guards", "l1.Client.setL1Head/applyStateUpdate", "", "anchor not found")
 		} else {
 			nf := 0
-			allInstrs(sl, func(in ssa.Instruction) {
-				switch x := in.(type) {
-				case *ssa.Lookup:
+			for _, op := range c17BufOps(p, sl) {
+				in := op.in
+				switch op.kind {
+				case "lookup":
 					// selection of the head candidate: c.nonFinalisedLogs[...]
-					if !strings.HasSuffix(term(x.X), "c.nonFinalisedLogs") {
-						return
-					}
 					nf++
-					d := p.mustHoldAt(in)
+					d := op.cond
 					ok1, m1 := everyDisjunctHas(d, []string{" <= ", "finalisedHeight(ctx)#0"})
 					ok2, m2 := everyDisjunctHas(d, []string{" >= ", "φ("}, []string{" >= "})
-					c.check(ok1, "guards", "setL1Head: candidate ≤ finalised height", p.Pos(posOf(in, sl)), "only commits at or below the provider's finalised height can become the head", "a buffered commit can be chosen as L1 head without key ≤ finalisedHeight (the provider's value): "+m1)
-					c.check(ok2, "guards", "setL1Head: highest candidate wins", p.Pos(posOf(in, sl)), "candidate replaces the current maximum only if its key is ≥", "the chosen head is not the highest finalised commit: "+m2)
-				case *ssa.Call:
-					if b, ok := x.Call.Value.(*ssa.Builtin); ok && b.Name() == "delete" && strings.HasSuffix(term(x.Call.Args[0]), "c.nonFinalisedLogs") {
-						nf++
-						ok1, m1 := everyDisjunctHas(p.mustHoldAt(in), []string{" <= ", "finalisedHeight(ctx)#0"})
-						c.check(ok1, "guards", "setL1Head: only finalised entries leave the buffer", p.Pos(posOf(in, sl)), "delete under key ≤ finalised height", "non-finalised commits are dropped from the buffer: "+m1)
-					}
+					c.check(ok1, "guards", "setL1Head: candidate ≤ finalised height", p.Pos(posOf(in, in.Parent())), "only commits at or below the provider's finalised height can become the head", "a buffered commit can be chosen as L1 head without key ≤ finalisedHeight (the provider's value): "+m1)
+					c.check(ok2, "guards", "setL1Head: highest candidate wins", p.Pos(posOf(in, in.Parent())), "candidate replaces the current maximum only if its key is ≥", "the chosen head is not the highest finalised commit: "+m2)
+				case "delete":
+					nf++
+					ok1, m1 := everyDisjunctHas(op.cond, []string{" <= ", "finalisedHeight(ctx)#0"})
+					c.check(ok1 && op.cond != nil, "guards", "setL1Head: only finalised entries leave the buffer", p.Pos(posOf(in, in.Parent())), "delete under key ≤ finalised height", "non-finalised commits are dropped from the buffer: "+m1)
 				}
-			})
+			}
 			// finalisedHeight comes from the provider
 			if fh := p.Func("l1", "Client", "finalisedHeight"); fh != nil {
 				okp := false
@@ -104,24 +100,21 @@ func init() {
 				c.check(okf, "guards", "setL1Head: head = (L2BlockNumber, L2BlockHash, StateRoot) of the chosen commit", p.Pos(hs.Pos()), "fields copied from the chosen commit", fmt.Sprintf("L1 head fields are %v", got))
 			}
 			// applyStateUpdate
-			allInstrs(ap, func(in ssa.Instruction) {
-				switch x := in.(type) {
-				case *ssa.Call:
-					if b, ok := x.Call.Value.(*ssa.Builtin); ok && b.Name() == "delete" && strings.HasSuffix(term(x.Call.Args[0]), "c.nonFinalisedLogs") {
-						nf++
-						d := p.mustHoldAt(in)
-						ok1, m1 := everyDisjunctHas(d, []string{"stateUpdate.Removed"})
-						ok2, m2 := everyDisjunctHas(d, []string{" >= stateUpdate.L1RefHeight)"})
-						c.check(ok1 && ok2, "guards", "applyStateUpdate: removal drops entries ≥ removed height", p.Pos(posOf(in, ap)), "delete under Removed ∧ key ≥ L1RefHeight", "a removal no longer drops exactly the buffered entries at or above the removed L1 height: "+m1+m2)
-					}
-				case *ssa.MapUpdate:
-					if strings.HasSuffix(term(x.Map), "c.nonFinalisedLogs") {
-						nf++
-						ok1, m1 := everyDisjunctHas(p.mustHoldAt(in), []string{"^!", "stateUpdate.Removed"})
-						c.check(ok1 && strings.HasSuffix(term(x.Key), "stateUpdate.L1RefHeight") && term(x.Value) == "stateUpdate", "guards", "applyStateUpdate: insert keyed by L1RefHeight", p.Pos(posOf(in, ap)), "non-removed updates are buffered under their L1 reference height", "buffering changed: key "+term(x.Key)+" value "+term(x.Value)+" "+m1)
-					}
+			for _, op := range c17BufOps(p, ap) {
+				in := op.in
+				switch op.kind {
+				case "delete":
+					nf++
+					d := op.cond
+					ok1, m1 := everyDisjunctHas(d, []string{"stateUpdate.Removed"})
+					ok2, m2 := everyDisjunctHas(d, []string{" >= stateUpdate.L1RefHeight)"})
+					c.check(ok1 && ok2 && d != nil, "guards", "applyStateUpdate: removal drops entries ≥ removed height", p.Pos(posOf(in, in.Parent())), "delete under Removed ∧ key ≥ L1RefHeight", "a removal no longer drops exactly the buffered entries at or above the removed L1 height: "+m1+m2)
+				case "insert":
+					nf++
+					ok1, m1 := everyDisjunctHas(op.cond, []string{"^!", "stateUpdate.Removed"})
+					c.check(ok1 && strings.HasSuffix(op.key, "stateUpdate.L1RefHeight") && op.val == "stateUpdate", "guards", "applyStateUpdate: insert keyed by L1RefHeight", p.Pos(posOf(in, in.Parent())), "non-removed updates are buffered under their L1 reference height", "buffering changed: key "+op.key+" value "+op.val+" "+m1)
 				}
-			})
+			}
 			if nf < 4 {
 				c.und("guards", "l1.Client buffer operations", "", fmt.Sprintf("only %d buffer operations recognised", nf))
 			}
@@ -140,7 +133,7 @@ func init() {
 			})
 		}
 		for f := range touch {
-			c.check(owners[f.Name()], "confinement", "nonFinalisedLogs ← "+qname(f), p.Pos(fnPos(f)), "touched only by the client's loop functions", "the buffer of non-finalised logs is accessed by "+qname(f)+", outside the single-goroutine loop")
+			c.check(owners[f.Name()] || p.calledOnlyFromAny(f, owners, 0), "confinement", "nonFinalisedLogs ← "+qname(f), p.Pos(fnPos(f)), "touched only by the client's loop functions", "the buffer of non-finalised logs is accessed by "+qname(f)+", outside the single-goroutine loop")
 		}
 		if len(touch) < 3 {
 			c.und("confinement", "nonFinalisedLogs", "", "accessors not found")
@@ -310,18 +303,17 @@ func c17RemovedFirst(c *Ctx) {
 	c.check(ok, "removed-first", "applyStateUpdate: Removed tested on every path", p.Pos(posOf(iff, f)), "the Removed test dominates every return", "applyStateUpdate can return before looking at stateUpdate.Removed: a removal notice (which carries the same fields as the log it revokes) is swallowed, the reorged-out entry stays buffered and is later recorded as the L1 head")
 	// the removal arm deletes with l1BlockNumber >= removed height
 	del := false
-	allInstrs(f, func(in ssa.Instruction) {
-		if call, isCall := in.(ssa.CallInstruction); isCall {
-			if b, isB := call.Common().Value.(*ssa.Builtin); isB && b.Name() == "delete" {
-				d := p.mustHoldAt(in)
-				o1, _ := everyDisjunctHas(d, []string{"$.Removed"})
-				o2, _ := everyDisjunctHas(d, []string{" >= stateUpdate.L1RefHeight)"}, []string{"^!", " < stateUpdate.L1RefHeight)"}, []string{"(stateUpdate.L1RefHeight <= "})
-				if o1 && o2 {
-					del = true
-				}
-			}
+	for _, op := range c17BufOps(p, f) {
+		if op.kind != "delete" || op.cond == nil {
+			continue
 		}
-	})
+		d := op.cond
+		o1, _ := everyDisjunctHas(d, []string{"$.Removed"})
+		o2, _ := everyDisjunctHas(d, []string{" >= stateUpdate.L1RefHeight)"})
+		if o1 && o2 {
+			del = true
+		}
+	}
 	c.check(del, "removed-first", "applyStateUpdate: removal arm", p.Pos(fnPos(f)), "deletes every buffered entry at or above the removed L1 height", "the removal arm no longer deletes the buffered entries at or above the removed height")
 }
 
@@ -431,4 +423,84 @@ func c17OrderAndDrain(c *Ctx) {
 	if n == 0 {
 		c.und("drain-after-close", "FilterLogStateUpdate", p.Pos(fnPos(f)), "no success return found")
 	}
+}
+
+
+// c17BufOp: one operation on the buffer of non-finalised logs performed by fn or a same-package helper, with the condition
+// (in fn's terms) under which it is performed. A removal is either delete(buf, k) — the condition is that of the call site,
+// which for a delete inside `for k := range buf` is the per-key filter — or maps.DeleteFunc(buf, pred), whose condition is
+// that of the call conjoined with the condition under which pred returns true.
+type c17BufOp struct {
+	kind     string // lookup | delete | insert
+	in       ssa.Instruction
+	cond     dnf // nil: not determined
+	key, val string
+}
+
+func c17BufOps(p *Prog, fn *ssa.Function) []c17BufOp {
+	isBuf := func(v ssa.Value) bool {
+		ld, ok := v.(*ssa.UnOp)
+		if !ok {
+			return false
+		}
+		fa, ok := ld.X.(*ssa.FieldAddr)
+		return ok && isNamed(fa.X.Type(), "l1", "Client") && fieldName(fa.X.Type(), fa.Field) == "nonFinalisedLogs"
+	}
+	substT := func(t string, chain []Site) string {
+		for i := len(chain) - 1; i >= 0; i-- {
+			if chain[i].Callee == nil {
+				continue
+			}
+			d := substParams(dnf{conj{t: true}}, chain[i].Callee, chain[i].Args())
+			for a := range d[0] {
+				if a != t {
+					t = a
+					break
+				}
+			}
+		}
+		return t
+	}
+	var out []c17BufOp
+	for _, di := range p.deepInstrs(fn, 2) {
+		switch x := di.In.(type) {
+		case *ssa.Lookup:
+			if isBuf(x.X) {
+				out = append(out, c17BufOp{kind: "lookup", in: x, cond: p.mustHoldChain(x, di.Chain)})
+			}
+		case *ssa.MapUpdate:
+			if isBuf(x.Map) {
+				out = append(out, c17BufOp{kind: "insert", in: x, cond: p.mustHoldChain(x, di.Chain), key: substT(term(x.Key), di.Chain), val: substT(term(x.Value), di.Chain)})
+			}
+		case *ssa.Call:
+			if len(x.Call.Args) == 0 || !isBuf(x.Call.Args[0]) {
+				continue
+			}
+			if b, ok := x.Call.Value.(*ssa.Builtin); ok && b.Name() == "delete" {
+				out = append(out, c17BufOp{kind: "delete", in: x, cond: p.mustHoldChain(x, di.Chain)})
+				continue
+			}
+			if cal := x.Call.StaticCallee(); cal != nil && len(x.Call.Args) == 2 {
+				o := cal
+				if o.Origin() != nil {
+					o = o.Origin()
+				}
+				if o.Pkg != nil && o.Pkg.Pkg.Path() == "maps" && o.Name() == "DeleteFunc" {
+					var cond dnf
+					if mc, ok := x.Call.Args[1].(*ssa.MakeClosure); ok {
+						if pc := p.closureTrueCond(mc); pc != nil {
+							for i := len(di.Chain) - 1; i >= 0; i-- {
+								if di.Chain[i].Callee != nil {
+									pc = substParams(pc, di.Chain[i].Callee, di.Chain[i].Args())
+								}
+							}
+							cond = dnfAnd(p.mustHoldChain(x, di.Chain), pc)
+						}
+					}
+					out = append(out, c17BufOp{kind: "delete", in: x, cond: cond})
+				}
+			}
+		}
+	}
+	return out
 }
